@@ -29,6 +29,7 @@ STD_SIGNIFICANT = re.compile(
     r"::(sync_all|sync_data|set_len|write_all|seek|flush|read_exact|rename|remove_file|create|open)$|"
     r"Atomic\w*::(load|store|fetch_add|fetch_sub|fetch_update|swap|compare_exchange)$|"
     r"(Mutex|RwLock)(<.*>)?::(lock|read|write)$|::(send|try_send|recv|try_recv|blocking_send)$|::(from_slice|from_compatible_slice|new_unchecked|from_slice_should_be_ok|as_slice|as_bytes|raw_data)$)")
+COMMUTATIVE = re.compile(r"(cmp::(min|max)|Ord::(min|max)|::(checked|saturating|wrapping|overflowing)_(add|mul)|::safe_add|::safe_mul|Add::add|Mul::mul|::eq|::ne|::is_disjoint|::union|::intersection)$")
 EXTRA_SCOPES = {
     "C05": ["script/src/syscalls/", "script/src/verify_env.rs"],
     "C16": ["sync/src/relayer/", "sync/src/synchronizer/", "sync/src/filter/", "network/src/protocols/", "util/light-client-protocol-server/src/", "util/network-alert/src/"],
@@ -153,6 +154,8 @@ def call_entry(b, c, S):
         forms = [list(K.form(b, a)) for a in args]
     except Exception:
         forms = ["?"]
+    if COMMUTATIVE.search(name or ""):
+        forms = sorted(forms, key=lambda x: json.dumps(x))
     return jd([name, forms])
 
 
@@ -241,9 +244,19 @@ def fingerprint(root, bodies, S=None):
                     else:
                         bts = K.branch_targets(b, site)
                         et, ef = side_effects(b, bts[0][0], [x[1] for x in bts], [x[2] for x in bts], sig_by_bb) if bts else ((), ())
-                    # the canonical form may have swapped the sides (le -> lt, is_some -> None, Some arm -> None arm): keep effects aligned
-                    flipped = (h[3] != hc[3]) if h[3] != h[4] else (h[0] == "le" or (h[1] and str(h[1][0]).endswith(("is_some", "is_ok"))) or (h[0] == "match" and h[1] != hc[1]))
-                    hc = tuple(hc) + (((tuple(ef), tuple(et)) if flipped else (tuple(et), tuple(ef))),)
+                    # keep the effects aligned with the canonical sides: `!=` was normalised to `==` (sides swapped) by decision_sites;
+                    # canon() swaps again for le -> lt, is_some / is_ok, and the Some / Ok arm of a match
+                    flips = 0
+                    if getattr(site, "op", None) == "ne":
+                        flips += 1
+                    if h[0] == "le":
+                        flips += 1
+                    if h[0] == "if" and h[1] and str(h[1][0]).endswith(("is_some", "is_ok")):
+                        flips += 1
+                    if h[0] == "match" and h[1] and h[1][0] in ("Option::Some", "Result::Ok"):
+                        flips += 1
+                    if hc[0] != "cmp~":
+                        hc = tuple(hc) + (((tuple(ef), tuple(et)) if flips % 2 else (tuple(et), tuple(ef))),)
                 except Exception:
                     pass
                 ch = jd(hc)
